@@ -59,6 +59,7 @@ def check_case(case):
     out.key = [f, exp.get('node'), exp.get('ele'), exp.get('sub'), kind]
     if exp.get('immediate_repeat'):
         kind = kind + '[loop-repeats-immediately]'
+        out.classes.append('required-segment-removed:loop-repeats-immediately')
     o = observe.run_validator(text, ack=True)
     if o.exc is not None:
         out.fail(core.exc_bucket(o.exc, '%s:exception' % kind), core.exc_detail(o.exc))
